@@ -270,6 +270,17 @@ func (p *Path) intrinsic(fn *ssa.Function, args []Value) (Value, bool) {
 		return nil, true
 	case "specIsGoReserved":
 		return memberOf(args[0].(*Term), goReservedIdents()), true
+	case "verifNote":
+		// informational: recorded when the condition can hold, never a violation
+		c := args[0].(*Term)
+		if !c.IsFalse() && (c.IsTrue() || p.feasibleWith(c)) {
+			msg := constStr(p, args[1], "note")
+			if len(p.gwrites) > 0 {
+				msg += ": " + p.gwrites[0]
+			}
+			p.notes = append(p.notes, msg)
+		}
+		return nil, true
 	case "verifGlobalWrites":
 		return mkInt(int64(len(p.gwrites))), true
 	case "verifTrackGlobals":
